@@ -44,7 +44,7 @@ def _strategy(kind):
     def s(draw, tier):
         h = draw(cm.holder(tier, kind, min_order=2))
         n = draw(st.integers(0, len(h["shape"]) - 1))
-        return dict(X=h, n=n, U=draw(_operand(h["shape"], h["vkind"])))
+        return dict(X=h, n=n, U=draw(_operand(h["shape"], h["vkind"])), n_numpy=draw(st.booleans()))
 
     return s
 
@@ -77,7 +77,7 @@ def mttkrp_body(ctx, case):
     _labels(ctx, h, u, n)
     ctx.nt = len(set(shape)) >= 2 and N >= 3 and u["rank"] >= 2 and bool(np.any(expect != 0))
     with ctx.sut(f"{kind}.mttkrp"):
-        V = X.mttkrp(U, n)
+        V = X.mttkrp(U, np.int64(n) if case.get("n_numpy") else int(n))
     ctx.require(isinstance(V, np.ndarray), "mttkrp-returns-ndarray", type(V).__name__)
     nterms = cm.terms(h) * ref.prod(shape) * (N + 2)
     cm.compare(ctx, V, expect, bound, nterms, cm.intvalued(h), "mttkrp-value", f"n={n} U={u['kind']}")
